@@ -1,5 +1,6 @@
 import Proofs.C12Int
 import Proofs.C12Varint
+import Model.MarshalInterp
 /-!
 # C12: varint from Go integer kinds; the other scalar encoders
 -/
@@ -83,5 +84,42 @@ theorem marshalVarintString_spec (s b : Bytes) (h : marshalVarintString s = some
         rw [← h, encBigInt_eq, trimTC_spec _ (by rw [tcEnc]; exact beBytes_ne_nil 8 _ (by omega)),
           tcDec_tcEnc 8 m (by omega) (by simp [fitsS, leB_iff, ltB_iff]; omega)]
       · simp at hp
+
+/-! ## date, timestamp, time, float, double, boolean -/
+
+theorem toS64_id (x : Int) (h : fitsS 8 x = true) : toS 64 x = x := by
+  simp [fitsS, leB_iff, ltB_iff] at h
+  simp [toS]; omega
+
+/-- date from a millisecond count: the specification's day (FLOOR) + 2^31, unless the count is negative and not a
+    whole number of days (Go's `/` truncates toward zero there) -/
+theorem encDateMillis_spec (ts : Int)
+    (hfloor : ¬ (ts < 0 ∧ ts % 86400000 ≠ 0))
+    (hrange : fitsU 4 (ts / 86400000 + 2147483648) = true) :
+    encDateMillis ts = beBytes 4 (ts / 86400000 + 2147483648).toNat := by
+  simp [fitsU, leB_iff, ltB_iff] at hrange
+  have hdiv : goDiv ts millisInADay = ts / 86400000 := by
+    unfold goDiv millisInADay
+    rw [Int.tdiv_eq_ediv]
+    by_cases h0 : 0 ≤ ts
+    · simp [h0]
+    · have hm : ts % 86400000 = 0 := by omega
+      have : (86400000:Int) ∣ ts := Int.dvd_of_emod_eq_zero hm
+      simp [this]
+  unfold encDateMillis
+  rw [hdiv, encInt_eq, tcEnc_toS32, tcEnc]
+  congr 1
+  omega
+
+/-- exact milliseconds of a time.Time with a nanosecond part in [0, 10^9), when nothing overflows -/
+theorem timeMillis_exact (sec nsec : Int) (h1 : fitsS 8 (sec * 1000) = true) (h2 : fitsS 8 (exactMillis sec nsec) = true) :
+    timeMillis sec nsec = exactMillis sec nsec := by
+  unfold timeMillis
+  rw [toS64_id _ h1]
+  exact toS64_id _ h2
+
+theorem day_of_millis (sec nsec : Int) (hn : 0 ≤ nsec ∧ nsec < 1000000000) :
+    exactMillis sec nsec / 86400000 = sec / 86400 := by
+  unfold exactMillis; omega
 
 end C12Scalar
